@@ -742,6 +742,17 @@ func runC16(a *Args) error {
 		strings.Repeat("../", 40) + "victim", strings.Repeat("a/", 20) + "b", strings.Repeat("/", 50), strings.Repeat("good/../", 10) + "good"} {
 		add(n)
 	}
+	// names derived from the installed plugins by one edit each (padding, case, separators,
+	// dots, NUL): every one of them must be refused or must stay in its OWN directory
+	nDerivedFrom := len(names)
+	for _, base := range []string{"good", "other", "broken", "noexec"} {
+		up := strings.ToUpper(base)
+		for _, n := range []string{" " + base, base + " ", "\t" + base, base + "\n", base + "\r\n", " " + base + " ", up, strings.ToUpper(base[:1]) + base[1:], base[:1] + strings.ToUpper(base[1:]),
+			base + "/", base + "//", "./" + base, base + "/.", "/" + base, base + ".", "." + base, base + "..", base + "\x00", base + "\\", base + "/../" + base, "x/../" + base, base + "%00", base + "\xc2\xa0", "\xc2\xa0" + base} {
+			add(n)
+		}
+	}
+	nDerivedTo := len(names)
 	nFixed := len(names)
 	nRandom := 900
 	if thorough {
@@ -773,7 +784,8 @@ func runC16(a *Args) error {
 	for i, n := range names {
 		i, n := i, n
 		fixed := i < nFixed
-		doVerify := asciiOnly(n) && len(n) < 400 && (fixed && i%2 == 0 || !fixed && i%6 == 0 || thorough && fixed)
+		derived := i >= nDerivedFrom && i < nDerivedTo
+		doVerify := asciiOnly(n) && len(n) < 400 && (derived || fixed && i%2 == 0 || !fixed && i%6 == 0 || thorough && fixed)
 		if thorough && fixed {
 			for d := 1; d <= 4; d++ {
 				d := d
